@@ -174,6 +174,13 @@ static std::vector<Panel> c08_panel() {
   P.push_back({zone("fixed/0"), -62135596800LL - 86400LL * 200 /* year 0, mid June */, 5});
   P.push_back({zone("fixed/0"), 1483228800LL /* 2017-01-01, a Sunday: %U = 01, %W = 00 */, 0});
   P.push_back({zone("fixed/0"), 1514678400LL /* 2017-12-31, a Sunday: %U = 53 */, 0});
+  // the exact years at which the broken-down year handed to the C library saturates (tm_year = year - 1900 must fit an int)
+  for (int d = -1; d <= 1; ++d) {
+    const i128 hi = ref::secs_from_civil(Civil{static_cast<i128>(INT_MAX) + 1900 + d, 6, 15, 12, 0, 0});
+    const i128 lo = ref::secs_from_civil(Civil{static_cast<i128>(INT_MIN) + 1900 + d, 6, 15, 12, 0, 0});
+    P.push_back({zone("fixed/0"), static_cast<long long>(hi), 0});
+    P.push_back({zone("fixed/0"), static_cast<long long>(lo), 0});
+  }
   return P;
 }
 
@@ -348,7 +355,7 @@ static void c09_run(int shard, int nshards, const hz::Args& a, hz::Result& r) {
       {"%M", {"0", "00", "59", "60", "-1", "5", "005"}},
       {"%S", {"0", "00", "59", "60", "61", "-1", "5"}},
       {"%E*S", {"00", "59", "60", "61", "59.", "59.5", "59.999999999999999", "59.9999999999999999", "60.5", "5.5", "59.x", "59,5"}},
-      {"%E3S", {"00", "59.123", "59.1234", "59.", "60.999"}},
+      {"%E3S", {"00", "59.123", "59.1234", "59.", "60.999", "60", "61", "61.5", "-1", "5"}},
       {"%S%E*f", {"59", "595", "59123456789012345678", "5"}},
       {"%S.%E3f", {"59.123", "59.", "59.x", "59.1234567"}},
       {"%z", {"+0000", "-0000", "+2359", "+2400", "+0060", "+000000", "+235959", "+236000", "Z", "z", "+00", "+0", "0000", "+00:00", "+1", "-2359", "+0000 ", "+12345"}},
@@ -363,7 +370,7 @@ static void c09_run(int shard, int nshards, const hz::Args& a, hz::Result& r) {
       {"%ET", {"T", "t", "x", "", "TT"}},
       {"%E4Y", {"2000", "0000", "0001", "9999", "-999", "-001", "-000", "999", "10000", "99999", "-99", "-9999", "20 0", " 200", "+200"}},
       {"%Y %U %w", {"2017 00 0", "2017 01 0", "2017 53 6", "2017 54 0", "2016 00 0", "2016 52 6", "2015 10 7", "2015 10 -1", "-1 00 0", "9223372036854775807 53 6", "-9223372036854775808 00 0", "2017 007 3"}},
-      {"%Y %W %u", {"2017 00 1", "2017 01 7", "2018 00 1", "2018 53 7", "2015 10 0", "2015 10 8", "9223372036854775807 53 7", "-9223372036854775808 00 1"}},
+      {"%Y %W %u", {"2017 00 1", "2017 01 7", "2018 00 1", "2018 53 7", "2018 54 1", "2015 10 0", "2015 10 8", "9223372036854775807 53 7", "-9223372036854775808 00 1"}},
       {"%Y-%m-%d", {"2015-02-28", "2015-02-29", "2016-02-29", "2016-02-30", "2015-04-31", "2015-09-31", "2015-12-31", "1900-02-29", "2000-02-29", "2015-2-3", "2015-02-3x", "-4-02-29", "-1-02-29", "2015-13-01", "2015-00-10", "2015-01-00"}},
       {"%d %b %Y", {"31 Sep 2015", "30 Sep 2015", "01 jan 1", "29 Feb 1900", "29 Feb 2000", "1 January 2015"}},
       {"%I:%M %p", {"12:00 AM", "12:00 PM", "01:30 pm", "11:59 PM", "13:00 PM", "00:00 AM"}},
